@@ -572,7 +572,8 @@ def rule_templates(ctx):
     oki = False
     if len(ps) == 1 and ps[0][0] == ((("if", SECOND), "then"),):
         nf = ftpl.NF()
-        f = nf.formula(resolve_expect(ps[0][1]))
+        from .. import leaves as _lv
+        f = nf.formula(resolve_expect(_lv.lift_proj(ps[0][1])))   # `(match t { B{lhs, rhs} => (lhs, rhs), _ => panic }).0` = `match t { B{lhs} => lhs, _ => panic }`
         Nv = var(nf.gen(NEXT), "Integer")
 
         def side(which):
